@@ -112,7 +112,7 @@ Proof.
 Qed.
 
 Section C17.
-Variable hash : N -> N.
+Variable hash : N -> option N.
 Variable fx : codefacts.
 Variable c : cfg.
 Variable clock : nat -> Z.
@@ -122,14 +122,14 @@ Notation step' := (step hash fx c clock).
 Lemma gen_next_mboxes : forall s g s1, gen_next clock s = (g, s1) -> s_mboxes s1 = s_mboxes s.
 Proof. intros s g s1 H. apply gen_next_db in H. apply H. Qed.
 
-Lemma lim_recover : forall s lit, within_limits c s -> within_limits c (fst (recover hash s lit)).
+Lemma lim_recover : forall s lit, within_limits c s -> within_limits c (fst (recover hash fx s lit)).
 Proof.
-  intros s lit L. unfold recover. destruct (hash_known (hash lit) s); cbn [fst]; [assumption|].
+  intros s lit L. unfold recover. destruct (lit_known hash fx lit s); cbn [fst]; [assumption|].
   apply lim_ins_recov. apply (lim_mem c s); [assumption | reflexivity].
 Qed.
-Lemma lim_recover_res : forall s lit, within_limits c s -> within_limits c (fst (recover_res hash s lit)).
+Lemma lim_recover_res : forall s lit, within_limits c s -> within_limits c (fst (recover_res hash fx s lit)).
 Proof.
-  intros s lit L. unfold recover_res. pose proof (lim_recover s lit L) as H. destruct (recover hash s lit). cbn [fst] in *. assumption.
+  intros s lit L. unfold recover_res. pose proof (lim_recover s lit L) as H. destruct (recover hash fx s lit). cbn [fst] in *. assumption.
 Qed.
 Lemma lim_limit_refuse : forall s lit, within_limits c s -> within_limits c (fst (limit_refuse hash fx s lit)).
 Proof. intros s lit L. unfold limit_refuse. destruct (cf_limit_norecover fx); cbn [fst]; [assumption | apply lim_recover; assumption]. Qed.
@@ -384,7 +384,7 @@ Proof.
   intros s L. unfold op_conn_bump. destruct (bump_all clock (map mb_id (s_mboxes s)) s) as [s1|] eqn:B; cbn [fst]; [|assumption].
   eapply lim_bump_all; eassumption.
 Qed.
-Lemma lim_restart : forall s, within_limits c s -> within_limits c (fst (op_restart hash clock s)).
+Lemma lim_restart : forall s, within_limits c s -> within_limits c (fst (op_restart hash fx clock s)).
 Proof.
   intros s L. unfold op_restart. cbv zeta. cbn [fst].
   match goal with |- context[gen_next clock ?x] => destruct (gen_next clock x) as [g s1] eqn:G end.
@@ -432,15 +432,15 @@ Proof.
   - rewrite Fi, E. cbn [negb]. exact IH.
   - rewrite E. cbn [negb]. rewrite IH. reflexivity.
 Qed.
-Lemma nonrec_recover : forall s lit, nonrec (s_mboxes (fst (recover hash s lit))) = nonrec (s_mboxes s).
+Lemma nonrec_recover : forall s lit, nonrec (s_mboxes (fst (recover hash fx s lit))) = nonrec (s_mboxes s).
 Proof.
-  intros s lit. unfold recover. destruct (hash_known (hash lit) s); cbn [fst]; [reflexivity|].
+  intros s lit. unfold recover. destruct (lit_known hash fx lit s); cbn [fst]; [reflexivity|].
   unfold ins_msgs. cbn [set_hashes bump_msg s_mboxes].
   destruct (find_id recov_id (s_mboxes s)); [|reflexivity]. cbn [add_log set_mboxes s_mboxes].
   apply nonrec_upd_recov. reflexivity.
 Qed.
-Lemma nonrec_recover_res : forall s lit, nonrec (s_mboxes (fst (recover_res hash s lit))) = nonrec (s_mboxes s).
-Proof. intros s lit. unfold recover_res. pose proof (nonrec_recover s lit) as H. destruct (recover hash s lit). exact H. Qed.
+Lemma nonrec_recover_res : forall s lit, nonrec (s_mboxes (fst (recover_res hash fx s lit))) = nonrec (s_mboxes s).
+Proof. intros s lit. unfold recover_res. pose proof (nonrec_recover s lit) as H. destruct (recover hash fx s lit). exact H. Qed.
 Lemma nonrec_limit_refuse : forall s lit, nonrec (s_mboxes (fst (limit_refuse hash fx s lit))) = nonrec (s_mboxes s).
 Proof. intros s lit. unfold limit_refuse. destruct (cf_limit_norecover fx); cbn [fst]; [reflexivity | apply nonrec_recover]. Qed.
 Lemma limit_refuse_same : forall s lit, cf_limit_norecover fx = true -> fst (limit_refuse hash fx s lit) = s.
@@ -519,9 +519,9 @@ Proof.
   - unfold op_append in *. destruct (is_recov name); [reflexivity|]. destruct (find_name name (s_mboxes s)) as [m|]; [|reflexivity].
     destruct (append_check c m); [|rewrite limit_refuse_same by assumption; reflexivity].
     unfold append_write in *. unfold recover_res in *.
-    destruct (find_id (mb_id m) (s_mboxes s)) as [m0|]; [|destruct (recover hash s lit) as [? [|]]; cbn [snd] in H; discriminate].
+    destruct (find_id (mb_id m) (s_mboxes s)) as [m0|]; [|destruct (recover hash fx s lit) as [? [|]]; cbn [snd] in H; discriminate].
     destruct (cf_recheck fx && negb (room c m0 1)); [rewrite limit_refuse_same by assumption; reflexivity|].
-    destruct r; cbn [fst snd] in *; try discriminate. destruct (recover hash s lit) as [? [|]]; cbn [snd] in H; discriminate.
+    destruct r; cbn [fst snd] in *; try discriminate. destruct (recover hash fx s lit) as [? [|]]; cbn [snd] in H; discriminate.
   - unfold op_copy, add_messages, out_of_recovery in *. cbv zeta in *.
     repeat match goal with
            | |- context[if ?b then _ else _] => destruct b; cbn [fst snd] in *; try reflexivity
